@@ -48,7 +48,7 @@ def default_cfg():
 class Step:
     __slots__ = ('idx', 'ep', 'kind', 'op', 'args', 'ok', 'exc', 'ret', 'events', 'raw_events',
                  'out', 'out_frames', 'in_frames', 'chunk', 'tick', 'tainted', 'pre', 'units',
-                 'snap', 'rejected', 'obs', 'trailing')
+                 'snap', 'rejected', 'obs', 'trailing', 'quirk')
 
     def __init__(self):
         self.exc = None
@@ -66,6 +66,7 @@ class Step:
         self.rejected = ()       # recv: per unit, answered with RST_STREAM
         self.obs = None          # read-only window probes after the step {sid: (local, remote)}
         self.trailing = 0        # recv: bytes of a not yet complete frame held after this chunk
+        self.quirk = None        # recv: a delivered frame hits a documented dependency quirk
 
     def brief(self):
         d = {'i': self.idx, 'ep': self.ep, 'k': self.kind}
@@ -449,6 +450,9 @@ class World:
         s.tainted = p.tainted
         s.in_frames = dst.in_tap.feed(chunk)
         s.trailing = len(dst.in_tap.buf)
+        for f in s.in_frames:
+            if f.quirk:
+                s.quirk = f.quirk
         try:
             evs = dst.conn.receive_data(chunk)
             s.ok = True
